@@ -6,7 +6,7 @@ def phP : PS → Nat
   | .idle => 0 | .fin _ => 1 | .rd _ _ => 2
 
 def phT (g : Cfg) : TS → Nat
-  | .none => 0 | .rd a => if a.again g then 2 else 1 | .dec _ => 2 | .queued => 3
+  | .none => 0 | .rd a _ => if a.again g then 2 else 1 | .dec _ => 2 | .queued => 3
 
 def qsum (k : K) : Nat := k.rq.length + k.dq.length + k.intr
 
@@ -33,16 +33,16 @@ theorem doRead_consumes (g : Cfg) (s : St) (hr : g.rbs > 0) :
   | szero hc hi hu hq he hf => exact ⟨Nat.le_refl _, fun h => by simp [Ans.again] at h⟩
   | sagain hc hi hu hq he hf => exact ⟨Nat.le_refl _, fun h => by simp [Ans.again] at h⟩
 
-theorem phT_rd_le (g : Cfg) (a : Ans) : phT g (.rd a) ≤ 2 ∧ 1 ≤ phT g (.rd a) := by
+theorem phT_rd_le (g : Cfg) (a : Ans) (h : Bool) : phT g (.rd a h) ≤ 2 ∧ 1 ≤ phT g (.rd a h) := by
   simp only [phT]; split <;> omega
 
-theorem phT_rd_again (g : Cfg) (a : Ans) (h : a.again g = true) : phT g (.rd a) = 2 := by simp [phT, h]
-theorem phT_rd_stop (g : Cfg) (a : Ans) (h : a.again g = false) : phT g (.rd a) = 1 := by simp [phT, h]
+theorem phT_rd_again (g : Cfg) (a : Ans) (b : Bool) (h : a.again g = true) : phT g (.rd a b) = 2 := by simp [phT, h]
+theorem phT_rd_stop (g : Cfg) (a : Ans) (b : Bool) (h : a.again g = false) : phT g (.rd a b) = 1 := by simp [phT, h]
 
 /-- the task's next read leaves at most weight `qsum + 1` -/
-theorem mu_taskRead (g : Cfg) (s : St) (hr : g.rbs > 0) :
-    qsum (taskRead g s).k + phT g (taskRead g s).task ≤ qsum s.k + 1 ∧
-    (taskRead g s).re = s.re ∧ (taskRead g s).ps = s.ps := by
+theorem mu_taskRead (g : Cfg) (s : St) (b : Bool) (hr : g.rbs > 0) :
+    qsum (taskRead g s b).k + phT g (taskRead g s b).task ≤ qsum s.k + 1 ∧
+    (taskRead g s b).re = s.re ∧ (taskRead g s b).ps = s.ps := by
   unfold taskRead
   split
   · exact ⟨by simp only [setTask, phT]; omega, rfl, rfl⟩
@@ -51,8 +51,8 @@ theorem mu_taskRead (g : Cfg) (s : St) (hr : g.rbs > 0) :
     simp only [setTask]
     refine ⟨?_, f3, f4⟩
     cases hag : (doRead g s).1.again g
-    · rw [phT_rd_stop g _ hag]; omega
-    · have := c2 hag; rw [phT_rd_again g _ hag]; omega
+    · rw [phT_rd_stop g _ b hag]; omega
+    · have := c2 hag; rw [phT_rd_again g _ b hag]; omega
 
 theorem finish_frame (g : Cfg) (s : St) (fl : Flags) :
     qsum (finish g s fl).k = qsum s.k ∧ (finish g s fl).re = s.re ∧ (finish g s fl).task = s.task := by
@@ -112,26 +112,26 @@ theorem mu_tstep (g : Cfg) (s s' : St) (hr : g.rbs > 0) (hs : tstep g s = some s
   · cases hs
   · next ht =>
     cases hs
-    obtain ⟨m1, m2, m3⟩ := mu_taskRead g s hr
+    obtain ⟨m1, m2, m3⟩ := mu_taskRead g s s.hup hr
     unfold mu
     rw [m2, m3, ht]
     have : phT g .queued = 3 := rfl
     omega
-  · next a ht =>
+  · next a hb ht =>
     cases hs
     obtain ⟨k1, k2, k3, k4, _⟩ := consume_frame g s a
     obtain ⟨n1, n2⟩ := consume_next g s a
     cases hnx : (consume g s a).1 with
     | again =>
       have hag := n1.mp hnx
-      obtain ⟨m1, m2, m3⟩ := mu_taskRead g (consume g s a).2 hr
+      obtain ⟨m1, m2, m3⟩ := mu_taskRead g (consume g s a).2 hb hr
       simp only [taskNext]
       unfold mu
-      rw [m2, m3, k2, k3, ht, phT_rd_again g a hag]
+      rw [m2, m3, k2, k3, ht, phT_rd_again g a hb hag]
       rw [k1] at m1
       omega
     | dead =>
-      have := phT_rd_le g a
+      have := phT_rd_le g a hb
       simp only [taskNext, setTask]
       unfold mu
       simp only
@@ -143,9 +143,17 @@ theorem mu_tstep (g : Cfg) (s s' : St) (hr : g.rbs > 0) (hs : tstep g s = some s
         cases hag : a.again g
         · rfl
         · have := n1.mpr hag; rw [hnx] at this; cases this
-      have h1 := phT_rd_stop g a hna
+      have h1 := phT_rd_stop g a hb hna
       have h0 : phT g .none = 0 := rfl
       simp only [taskNext]
+      split
+      · -- hang-up round: close
+        obtain ⟨x1, x2, x3, x4, x5, x6⟩ := closeHang_frame (consume g s a).2
+        simp only [setTask]
+        unfold mu
+        simp only
+        rw [x1, x2, x3, k1, k2, k3, ht]
+        omega
       split
       · obtain ⟨r1, r2, r3, r4, r5, r6, r7, r8, r9, r10, r11, r12⟩ := rearm_frame (consume g s a).2
         have hq : qsum (rearm (consume g s a).2).k = qsum (consume g s a).2.k := by unfold rearm; split <;> simp [qsum]
@@ -171,7 +179,7 @@ theorem mu_tstep (g : Cfg) (s s' : St) (hr : g.rbs > 0) (hs : tstep g s = some s
           omega
   · next v ht =>
     cases hs
-    obtain ⟨m1, m2, m3⟩ := mu_taskRead g s hr
+    obtain ⟨m1, m2, m3⟩ := mu_taskRead g s s.hup hr
     unfold mu
     rw [m2, m3, ht]
     have : phT g (.dec v) = 2 := rfl
